@@ -10,16 +10,19 @@ def check(run):
     for hooks in ('000', '100', '010', '001', '110', '101', '011', '111'):
         cases.append('none - - ' + hooks)
     for _ in range(n):
-        kind = rng.choice(['sync', 'async', 'sync', 'async', 'syncr', 'asyncr'])
+        kind = rng.choice(['sync', 'async', 'sync', 'async', 'syncr', 'asyncr', 'none'])   # none: no live configuration - after the Destroy of whatever the previous case configured
         lv = c01.level_str(rng, valid=rng.random() > 0.03)
         rl = c01.level_str(rng) if rng.random() < 0.5 else ''
+        if kind == 'none':
+            cases.append('none - - ' + rng.choice(['000', '100', '010', '001', '110', '101', '011', '111']))
+            continue
         cases.append('%s %s %s %s' % (kind, hx(lv), hx(rl), rng.choice(['000', '100', '010', '001', '110', '101', '011', '111'])))
 
     def nontrivial(c, obs):
         toks = obs.split()
         return obs != 'err' and len({t.split(',')[5] for t in toks}) == 2   # some calls emitted, some not
     common.simple_family_check(run, 'c10', 'c10/hooks', cases, nontrivial,
-        'per configuration (before Refresh / sync / async logger, also with a second reference to a rolling-file appender, level ranges with and without upper bounds over built-in and custom levels, an appender reference with its own '
+        'per configuration (no live configuration - before the first Refresh and again after the Destroy of earlier, level-restricted ones - / sync / async logger, also with a second reference to a rolling-file appender, level ranges with and without upper bounds over built-in and custom levels, an appender reference with its own '
         'range, all 8 hook subsets): 14 fixed-level entry points + Record at every registered code and its neighbours, each call with its own context; observable per call: '
         'generator invocations, invocations of each hook and whether they got the caller\'s context, whether the event reached the sink, and whether it carries the hook time, '
         'the context string and the context fields (one of them, on every third call, under the key of one of the call\'s own fields) ahead of the call\'s fields; non-trivial = some calls emitted and some suppressed', keep_empty=False)
